@@ -78,6 +78,10 @@ pub enum Node {
     Line(String),
     /// one line: pre + open tag + content + close tag + post
     Inline { pre: String, elem: Elem, content: String, post: String },
+    /// one line with several sibling elements: pre + (open + content + close + after)*
+    Row { pre: String, cells: Vec<(Elem, String, String)> },
+    /// one line with a nested element: pre + open(outer) + a + open(inner) + b + close(inner) + c + close(outer) + post
+    Nest { pre: String, outer: Elem, a: String, inner: Elem, b: String, c: String, post: String },
     /// open line = indent + open_lead + open tag + open_trail ; kids ; close line = close_indent + close_lead + close tag + close_trail
     Block { indent: String, open_lead: String, elem: Elem, open_trail: String, kids: Vec<Node>, close_indent: String, close_lead: String, close_trail: String },
 }
@@ -219,6 +223,48 @@ pub fn render(doc: &Doc, sp: &Spell) -> Rendered {
                         let line = self.lines.len();
                         self.end_line(s);
                         self.elems.push(ElemInfo { id: elem.id, cond: elem.cond.clone(), skip: elem.skip, unwrap: elem.unwrap, open: (o0, o1), close: (c0, c1), open_line: line, close_line: line, parent, tags_alone: false, inline: true });
+                    }
+                    Node::Row { pre, cells } => {
+                        let s = self.begin_line();
+                        self.src.push_str(pre);
+                        let line = self.lines.len();
+                        for (elem, content, after) in cells {
+                            let o0 = self.src.len();
+                            self.src.push_str(&open_tag(elem, self.sp));
+                            let o1 = self.src.len();
+                            self.src.push_str(content);
+                            let c0 = self.src.len();
+                            self.src.push_str(&close_tag(elem, self.sp));
+                            let c1 = self.src.len();
+                            self.src.push_str(after);
+                            self.elems.push(ElemInfo { id: elem.id, cond: elem.cond.clone(), skip: elem.skip, unwrap: elem.unwrap, open: (o0, o1), close: (c0, c1), open_line: line, close_line: line, parent, tags_alone: false, inline: true });
+                        }
+                        self.end_line(s);
+                    }
+                    Node::Nest { pre, outer, a, inner, b, c, post } => {
+                        let s = self.begin_line();
+                        self.src.push_str(pre);
+                        let line = self.lines.len();
+                        let o0 = self.src.len();
+                        self.src.push_str(&open_tag(outer, self.sp));
+                        let o1 = self.src.len();
+                        self.src.push_str(a);
+                        let i0 = self.src.len();
+                        self.src.push_str(&open_tag(inner, self.sp));
+                        let i1 = self.src.len();
+                        self.src.push_str(b);
+                        let j0 = self.src.len();
+                        self.src.push_str(&close_tag(inner, self.sp));
+                        let j1 = self.src.len();
+                        self.src.push_str(c);
+                        let c0 = self.src.len();
+                        self.src.push_str(&close_tag(outer, self.sp));
+                        let c1 = self.src.len();
+                        self.src.push_str(post);
+                        let oi = self.elems.len();
+                        self.elems.push(ElemInfo { id: outer.id, cond: outer.cond.clone(), skip: outer.skip, unwrap: outer.unwrap, open: (o0, o1), close: (c0, c1), open_line: line, close_line: line, parent, tags_alone: false, inline: true });
+                        self.elems.push(ElemInfo { id: inner.id, cond: inner.cond.clone(), skip: inner.skip, unwrap: inner.unwrap, open: (i0, i1), close: (j0, j1), open_line: line, close_line: line, parent: Some(oi), tags_alone: false, inline: true });
+                        self.end_line(s);
                     }
                     Node::Block { indent, open_lead, elem, open_trail, kids, close_indent, close_lead, close_trail } => {
                         let s = self.begin_line();
@@ -392,6 +438,8 @@ pub struct Opts {
     pub max_tag_indent_jitter: bool,
     /// (block-style documents) occasionally a whole unwrap-block element on a single line
     pub single_line_unwrap: bool,
+    /// text that can end up left of a list marker (inline prefixes / contents, tag-line leads, wrapper lines) is ASCII
+    pub ascii_left: bool,
 }
 
 impl Opts {
@@ -417,6 +465,7 @@ impl Opts {
             tag_styles: true,
             max_tag_indent_jitter: true,
             single_line_unwrap: false,
+            ascii_left: false,
         }
     }
 }
@@ -434,6 +483,20 @@ pub struct Gen<'a, 't> {
 impl<'a, 't> Gen<'a, 't> {
     fn word(&mut self) -> String {
         let w = self.t.s(&self.words).to_string();
+        if self.o.unique_lines && !self.t.chance(25) {
+            self.next_line += 1;
+            format!("{w} L{}", self.next_line)
+        } else {
+            w
+        }
+    }
+    /// a word for positions left of a possible list marker
+    fn word_left(&mut self) -> String {
+        if !self.o.ascii_left {
+            return self.word();
+        }
+        let ascii: Vec<&'static str> = self.words.iter().copied().filter(|w| w.is_ascii()).collect();
+        let w = if ascii.is_empty() { "7".to_string() } else { self.t.s(&ascii).to_string() };
         if self.o.unique_lines && !self.t.chance(25) {
             self.next_line += 1;
             format!("{w} L{}", self.next_line)
@@ -477,16 +540,67 @@ impl<'a, 't> Gen<'a, 't> {
         Elem { id, cond, skip, unwrap, style }
     }
     fn inline_node(&mut self, level: usize) -> Node {
+        let k = self.t.below(10);
+        if k >= 8 {
+            return self.row_or_nest(level, k == 9);
+        }
+        self.inline_single(level)
+    }
+    fn row_or_nest(&mut self, level: usize, nest: bool) -> Node {
         let ind = self.indent(level);
-        let pre = if self.t.chance(70) { format!("{ind}{} ", self.word()) } else { ind };
+        let pre = if self.t.chance(60) { format!("{ind}{} ", self.word_left()) } else { ind };
+        if nest {
+            let mut outer = self.elem(false);
+            outer.unwrap = false;
+            let mut inner = self.elem(false);
+            inner.unwrap = false;
+            let a = if self.t.chance(60) { format!("{} ", self.word_left()) } else { String::new() };
+            let b = if self.t.chance(60) { self.word_left() } else { String::new() };
+            let c = if self.t.chance(60) { format!(" {}", self.word_left()) } else { String::new() };
+            let post = if self.t.chance(50) { format!(" {}", self.word()) } else { String::new() };
+            return Node::Nest { pre, outer, a, inner, b, c, post };
+        }
+        let n = 2 + self.t.below(2);
+        let mut cells = vec![];
+        for i in 0..n {
+            let mut e = self.elem(false);
+            e.unwrap = false;
+            let content = if self.t.chance(70) { self.word_left() } else { String::new() };
+            let after = if i + 1 < n {
+                if self.t.chance(70) {
+                    format!(" {} ", self.word_left())
+                } else {
+                    String::new()
+                }
+            } else if self.t.chance(50) {
+                format!(" {}", self.word())
+            } else {
+                String::new()
+            };
+            cells.push((e, content, after));
+        }
+        Node::Row { pre, cells }
+    }
+    fn inline_single(&mut self, level: usize) -> Node {
+        let ind = self.indent(level);
+        let pre = if self.t.chance(70) {
+            let w = self.word_left();
+            if self.o.ascii_left && self.t.chance(25) {
+                format!("{ind}{w}\t")
+            } else {
+                format!("{ind}{w} ")
+            }
+        } else {
+            ind
+        };
         let mut elem = self.elem(true);
         if elem.unwrap && !self.t.chance(30) {
             elem.unwrap = false;
         }
         let content = match self.t.below(4) {
             0 => String::new(),
-            1 => format!(" {} ", self.word()),
-            _ => self.word(),
+            1 => format!(" {} ", self.word_left()),
+            _ => self.word_left(),
         };
         let post = if self.t.chance(60) { format!(" {}", self.word()) } else { String::new() };
         Node::Inline { pre, elem, content, post }
@@ -509,7 +623,7 @@ impl<'a, 't> Gen<'a, 't> {
                     if self.o.inline && depth_left > 0 {
                         v.push(self.inline_node(level))
                     } else if self.o.single_line_unwrap && depth_left > 0 && self.t.chance(40) {
-                        let mut n = self.inline_node(level);
+                        let mut n = self.inline_single(level);
                         if let Node::Inline { elem, .. } = &mut n {
                             elem.unwrap = true;
                         }
@@ -543,9 +657,9 @@ impl<'a, 't> Gen<'a, 't> {
         let shared_ok = self.o.inline && (!elem.unwrap || self.o.unwrap_tags_shared);
         if shared_ok && self.t.chance(20) {
             match self.t.below(4) {
-                0 => open_lead = format!("{} ", self.word()),
+                0 => open_lead = format!("{} ", self.word_left()),
                 1 => open_trail = format!(" {}", self.word()),
-                2 => close_lead = format!("{} ", self.word()),
+                2 => close_lead = format!("{} ", self.word_left()),
                 _ => close_trail = format!(" {}", self.word()),
             }
         } else if self.o.inline && self.t.chance(8) {
@@ -655,7 +769,7 @@ pub fn gen_acfg(t: &mut Tape) -> ACfg {
 pub fn count_lines(ns: &[Node]) -> usize {
     ns.iter()
         .map(|n| match n {
-            Node::Line(_) | Node::Inline { .. } => 1,
+            Node::Line(_) | Node::Inline { .. } | Node::Row { .. } | Node::Nest { .. } => 1,
             Node::Block { kids, .. } => 2 + count_lines(kids),
         })
         .sum()
